@@ -314,7 +314,38 @@ func ruleLex(c *Ctx) {
 		})
 		ok4 := copyPos != nil && moveLoop != nil && endSet != nil
 		why := "expected `p := l.Pos` before, and `p.IdxEnd = l.Pos.Idx` after, a loop calling Move once per matched rune"
-		if ok4 {
+		batch, batchObj := c.batchCursor()
+		if !ok4 && moveLoop == nil && copyPos != nil && endSet != nil && batch != nil {
+			// the cursor is advanced over the matched text in one call of a batch method that was verified against the per-rune
+			// semantics (batchCursor): the argument is the matched runes input[Idx : Idx+offset] as a string
+			var adv *ast.CallExpr
+			for _, call := range c.calls(nx.Body) {
+				if c.calleeObj(call) == batchObj && len(call.Args) == 1 {
+					adv = call
+				}
+			}
+			okB := adv != nil
+			if okB {
+				arg := c.sxInl(adv.Args[0], defs)
+				okB = strings.Contains(arg, "SliceExpr") && strings.Contains(arg, "Sel:input") && strings.Contains(arg, "Op:+") &&
+					g.dominates(copyPos, adv) && g.dominates(adv, endSet) &&
+					c.objOf(endSet.Lhs[0].(*ast.SelectorExpr).X) == c.objOf(copyPos.Lhs[0])
+			}
+			inspectNoLit(nx.Body, func(x ast.Node) bool {
+				if as, ok := x.(*ast.AssignStmt); ok && as != endSet {
+					for _, l := range as.Lhs {
+						if se, ok := l.(*ast.SelectorExpr); ok {
+							switch se.Sel.Name {
+							case "Idx", "Col", "Line", "IdxEnd":
+								okB = false
+							}
+						}
+					}
+				}
+				return true
+			})
+			c.R.Check(okB, "parser/lexer.lexer.next", "LEX-4 position advanced rune by rune over the matched text", nx.Pos(), "p := l.Pos; l.Pos."+batch.Name.Name+"(string(matched)); p.IdxEnd = l.Idx — the batch cursor is verified against the per-rune semantics", "the batch cursor is not applied to exactly the matched runes between the start-position copy and the end index")
+		} else if ok4 {
 			ranged := c.sxInl(moveLoop.X, defs)
 			// matched = l.input[l.Idx : l.Idx+offset]
 			if !(strings.Contains(ranged, "SliceExpr") && strings.Contains(ranged, "Sel:input") && strings.Contains(ranged, "Op:+")) {
@@ -350,7 +381,9 @@ func ruleLex(c *Ctx) {
 				return true
 			})
 		}
-		c.R.Check(ok4, "parser/lexer.lexer.next", "LEX-4 position advanced rune by rune over the matched text", nx.Pos(), "p := l.Pos; for _, r := range matched { l.Move(r) }; p.IdxEnd = l.Pos.Idx", why)
+		if !(moveLoop == nil && copyPos != nil && endSet != nil && batch != nil) {
+			c.R.Check(ok4, "parser/lexer.lexer.next", "LEX-4 position advanced rune by rune over the matched text", nx.Pos(), "p := l.Pos; for _, r := range matched { l.Move(r) }; p.IdxEnd = l.Pos.Idx", why)
+		}
 	} else {
 		c.R.Anchor("lexer.next")
 	}
@@ -362,10 +395,23 @@ func ruleLex(c *Ctx) {
 			strings.Contains(s, "Else:(BlockStmt [(IncDecStmt (SelectorExpr $r Sel:Col) Tok:++)])")
 		c.R.Check(okMv, "parser/pos.Pos.Move", "LEX-4 Idx++ always; newline: Line++, Col=0; else Col++", mv.Pos(), "cursor arithmetic as specified", "Move no longer advances Idx once per rune with line/column bookkeeping on newline")
 	} else {
-		c.R.Anchor("pos.Pos.Move")
+		if b, _ := c.batchCursor(); b != nil {
+			c.R.OK("parser/pos.Pos."+b.Name.Name, "LEX-4 Idx++ always; newline: Line++, Col=0; else Col++", b.Pos(), "batch form: Idx += runes(s); without a newline Col += runes(s); with one Line += count of newlines and Col = runes after the last newline — the per-rune cursor iterated over s")
+		} else {
+			c.R.Anchor("pos.Pos.Move")
+		}
 	}
 	if sk := c.FuncDecl("parser/lexer", "lexer.skipSpace"); sk != nil {
 		okSk := len(c.callsTo(sk.Body, "parser/pos.Pos.Move")) == 1
+		if _, bo := c.batchCursor(); bo != nil && !okSk {
+			nb := 0
+			for _, call := range c.calls(sk.Body) {
+				if c.calleeObj(call) == bo {
+					nb++
+				}
+			}
+			okSk = nb == 1
+		}
 		inspectNoLit(sk.Body, func(x ast.Node) bool {
 			if id, ok := x.(*ast.IncDecStmt); ok {
 				if se, ok := id.X.(*ast.SelectorExpr); ok && se.Sel.Name == "Idx" {
@@ -1745,4 +1791,119 @@ func (c *Ctx) desugarSemOK() map[string]bool {
 		}
 	}
 	return out
+}
+
+// batchCursor finds a method of pos.Pos, new since the pinned commit, that advances the cursor over a whole string, and
+// verifies it against the per-rune semantics (Idx+1 per rune; newline: Line+1, Col=0; otherwise Col+1) iterated over the
+// string: on every path Idx += runes(s); on the path that assumes no newline in s, Col += runes(s) and Line is untouched; on
+// the path that assumes one, Line += strings.Count(s, "\n") and Col = runes(s[lastNewline+1:]). Returns nil when there is
+// no such method or it does not verify.
+func (c *Ctx) batchCursor() (*ast.FuncDecl, types.Object) {
+	var found *ast.FuncDecl
+	var obj types.Object
+	c.eachFuncDecl(func(pk *packages.Package, fd *ast.FuncDecl) {
+		if found != nil || short(pk.PkgPath) != "parser/pos" || fd.Body == nil || fd.Recv == nil || knownFuncs[fnName("parser/pos", fd)] {
+			return
+		}
+		if fd.Type.Params == nil || len(fd.Type.Params.List) != 1 || len(fd.Type.Params.List[0].Names) != 1 || typeStr(c.typeOf(fd.Type.Params.List[0].Type)) != "string" {
+			return
+		}
+		if len(fd.Recv.List) != 1 || len(fd.Recv.List[0].Names) != 1 || typeStr(c.typeOf(fd.Recv.List[0].Type)) != "*parser/pos.Pos" {
+			return
+		}
+		recv := c.objOf(fd.Recv.List[0].Names[0])
+		tc := c.fnTerms(fd)
+		tc.expand = true
+		paths, ok := c.retPaths(fd.Body.List)
+		if !ok || len(paths) != 2 {
+			return
+		}
+		rc := func(x string) []string {
+			return []string{"unicode/utf8.RuneCountInString(" + x + ")", "builtin.len(conv:[]rune(" + x + "))"}
+		}
+		isOneOf := func(t string, xs []string) bool {
+			for _, x := range xs {
+				if t == x {
+					return true
+				}
+			}
+			return false
+		}
+		lastIdx := []string{"strings.LastIndexByte(p0,const:10)", "strings.LastIndex(p0,const:\"\\n\")"}
+		seenNo, seenYes := false, false
+		for _, p := range paths {
+			if p.end == "panic" {
+				return
+			}
+			writes := map[string][2]string{}
+			for _, st := range p.stmts {
+				switch x := st.(type) {
+				case *ast.AssignStmt:
+					for i, l := range x.Lhs {
+						if se, isSel := unparen(l).(*ast.SelectorExpr); isSel && c.objOf(se.X) == recv && len(x.Lhs) == len(x.Rhs) {
+							if _, dup := writes[se.Sel.Name]; dup {
+								return
+							}
+							writes[se.Sel.Name] = [2]string{x.Tok.String(), tc.tr(x.Rhs[i])}
+						}
+					}
+				case *ast.IncDecStmt:
+					if se, isSel := unparen(x.X).(*ast.SelectorExpr); isSel && c.objOf(se.X) == recv {
+						return
+					}
+				}
+			}
+			if w := writes["Idx"]; w[0] != "+=" || !isOneOf(w[1], rc("p0")) {
+				return
+			}
+			terms := tc.pathTerms(p)
+			if len(terms) != 1 {
+				return
+			}
+			noNL, hasNL := false, false
+			for _, li := range lastIdx {
+				if terms[0] == "lt("+li+",const:0)" {
+					noNL = true
+				}
+				if terms[0] == "le(const:0,"+li+")" {
+					hasNL = true
+				}
+			}
+			switch {
+			case noNL:
+				if w := writes["Col"]; w[0] != "+=" || !isOneOf(w[1], rc("p0")) {
+					return
+				}
+				if _, wr := writes["Line"]; wr {
+					return
+				}
+				seenNo = true
+			case hasNL:
+				if w := writes["Line"]; w[0] != "+=" || w[1] != "strings.Count(p0,const:\"\\n\")" {
+					return
+				}
+				okCol := false
+				for _, li := range lastIdx {
+					if w := writes["Col"]; w[0] == "=" && isOneOf(w[1], rc("slice(p0,add(const:1,"+li+"),)")) {
+						okCol = true
+					}
+				}
+				if !okCol {
+					return
+				}
+				seenYes = true
+			default:
+				return
+			}
+			for f := range writes {
+				if f != "Idx" && f != "Col" && f != "Line" {
+					return
+				}
+			}
+		}
+		if seenNo && seenYes {
+			found, obj = fd, c.calleeObjOfDecl(fd)
+		}
+	})
+	return found, obj
 }
